@@ -162,3 +162,45 @@ func init() {
 		}
 	}
 }
+
+func init() {
+	subcommands["dis"] = func(args []string) {
+		b, _ := os.ReadFile(args[0])
+		elk.InitGlobalEnvironment()
+		tc := checker.New()
+		chunk, diags := tc.CheckSourceBytecode("main.elk", string(b))
+		fmt.Print(diagString(diags))
+		if chunk != nil {
+			var walk func(f *vm.BytecodeFunction)
+			walk = func(f *vm.BytecodeFunction) {
+				f.DisassembleStdout()
+				for _, v := range f.Values {
+					if g, ok := v.SafeAsReference().(*vm.BytecodeFunction); ok {
+						walk(g)
+					}
+				}
+			}
+			walk(chunk)
+		}
+	}
+}
+
+func init() {
+	// elkout <file>: run a program, print stdout, then "PANIC"/"ERROR <inspect>" markers on abnormal ends
+	subcommands["elkout"] = func(args []string) {
+		b, err := os.ReadFile(args[0])
+		if err != nil {
+			panic(err)
+		}
+		r := RunElk(string(b), nil)
+		fmt.Print(r.Stdout)
+		switch {
+		case r.Rejected:
+			fmt.Println("REJECTED")
+		case r.Panic != "":
+			fmt.Println("PANIC")
+		case !r.Err.IsUndefined():
+			fmt.Println("ERROR " + r.ErrInspect)
+		}
+	}
+}
